@@ -566,7 +566,15 @@ func (e *termEnv) termOf(v ssa.Value) *Term {
 		return e.termOf(x.X)
 	case *ssa.BinOp:
 		if ranged := rangeIndexOf(x); ranged != nil {
-			return mk("rangeidx", "", e.termOf(ranged))
+			rt := e.termOf(ranged)
+			if rt.Op == "slice" {
+				// ranging over A[lo:hi]: the index counts 0,1,2,... like a counted loop; what is visited follows from
+				// the element expression A[lo+i]
+				t := mk("iv", "", tconst(0), tconst(1))
+				t.Name = "iv"
+				return t
+			}
+			return mk("rangeidx", "", rt)
 		}
 		a, b := e.termOf(x.X), e.termOf(x.Y)
 		switch x.Op {
@@ -829,6 +837,9 @@ func (e *termEnv) callTerm(c *ssa.Call) *Term {
 		case "max":
 			return tminmax("max", args...)
 		case "len":
+			if len(args) == 1 && args[0].Op == "slice" && len(args[0].Args) == 3 {
+				return tsub(args[0].Args[2], args[0].Args[1]) // len(A[lo:hi]) = hi - lo
+			}
 			return mk("len", "", args...)
 		}
 		return mk("call", "builtin."+b.Name(), args...)
@@ -1011,6 +1022,14 @@ func (e *termEnv) phiTerm(p *ssa.Phi) *Term {
 		}
 	}
 	if iv := e.ivOf(p); iv != nil {
+		// "for i := 0; i < len(X); i++" visits X exactly like "for i := range X": same canonical index
+		if init, ok := iv.Args[0].isConst(); ok && init == 0 {
+			if step, ok := iv.Args[1].isConst(); ok && step == 1 {
+				if b, strict, ok := e.ivBound(p); ok && strict && b.Op == "len" && len(b.Args) == 1 && b.Args[0].Op != "slice" {
+					return mk("rangeidx", "", b.Args[0])
+				}
+			}
+		}
 		return iv
 	}
 	if t := e.boolPhi(p); t != nil {
@@ -1074,6 +1093,7 @@ type Guard struct {
 	Cond *Term
 	Pos  bool
 	If   *ssa.If
+	At   int // number of effect instructions on the path when the guard was taken (path enumeration only)
 }
 
 func (g Guard) String() string {
@@ -1366,7 +1386,13 @@ func tindex(base, idx *Term) *Term {
 	if base.Op == "slice" && len(base.Args) == 3 {
 		lo := base.Args[1]
 		var ni *Term
-		if idx.Op == "rangeidx" {
+		isCount01 := false
+		if idx.Op == "iv" && len(idx.Args) == 2 {
+			a, ok1 := idx.Args[0].isConst()
+			b, ok2 := idx.Args[1].isConst()
+			isCount01 = ok1 && ok2 && a == 0 && b == 1
+		}
+		if idx.Op == "rangeidx" || isCount01 {
 			ni = mk("iv", "", lo, tconst(1))
 			ni.Name = "iv"
 		} else {
@@ -1465,6 +1491,7 @@ func enumPathsInl(e *termEnv, fn *ssa.Function, limit int, inl func(*ssa.Functio
 			}
 		}
 	}
+	unfolded := map[*ssa.Call]bool{}
 	var walkFrom func(c *ctx, b, pred *ssa.BasicBlock, start int)
 	walkFrom = func(c *ctx, b, pred *ssa.BasicBlock, start int) {
 		if len(paths) >= limit {
@@ -1515,6 +1542,7 @@ func enumPathsInl(e *termEnv, fn *ssa.Function, limit int, inl func(*ssa.Functio
 					}
 				}
 				if callee != nil && inl != nil && len(callee.Blocks) > 0 && c.depth < 2 && !rec && inl(callee) {
+					unfolded[x] = true
 					var unb []func()
 					for pi, p := range callee.Params {
 						if pi < len(x.Call.Args) {
@@ -1571,6 +1599,14 @@ func enumPathsInl(e *termEnv, fn *ssa.Function, limit int, inl func(*ssa.Functio
 				return
 			case *ssa.If:
 				cond := e.termOf(x.Cond)
+				// x == x / x != x (a helper's constant result compared by the caller)
+				if (cond.Op == "eq" || cond.Op == "ne") && len(cond.Args) == 2 && cond.Args[0].String() == cond.Args[1].String() && !cond.HasUnknown() {
+					if cond.Op == "eq" {
+						cond = &Term{Op: "const", Name: "true"}
+					} else {
+						cond = &Term{Op: "const", Name: "false"}
+					}
+				}
 				if cond.Op == "const" && (cond.Name == "true" || cond.Name == "false") {
 					k := 0
 					if cond.Name == "false" {
@@ -1579,9 +1615,48 @@ func enumPathsInl(e *termEnv, fn *ssa.Function, limit int, inl func(*ssa.Functio
 					walkFrom(c, b.Succs[k], b, 0)
 					return
 				}
+				// a condition already decided on this path (the same test made by the helper and again by its caller on
+				// the value the helper returned) has only the consistent branch
+				decided := -1
+				cs, ncs := cond.String(), tnot(cond).String()
+				for _, g := range cur.Conds {
+					// conditions over immutable SSA values (call results, parameters, constants) keep their outcome; a
+					// test of memory keeps it only if nothing on the path in between can have written that memory:
+					// no store, and no call into the repository that was not unfolded
+					if !immutableCond(x.Cond) || !immutableCond(g.If.Cond) {
+						quiet := g.At <= len(cur.Instrs)
+						for _, in := range cur.Instrs[minInt(g.At, len(cur.Instrs)):] {
+							switch y := in.(type) {
+							case *ssa.Store:
+								if !isLocalAddr(y.Addr) {
+									quiet = false
+								}
+							case *ssa.Call:
+								if callee := y.Call.StaticCallee(); !unfolded[y] && (callee == nil || e.w.IsRepoFunc(callee)) {
+									quiet = false
+								}
+							case *ssa.Defer, *ssa.Go, *ssa.Send:
+								quiet = false
+							}
+						}
+						if !quiet {
+							continue
+						}
+					}
+					gs := g.String()
+					if gs == cs {
+						decided = 0
+					} else if gs == ncs {
+						decided = 1
+					}
+				}
+				if decided >= 0 {
+					walkFrom(c, b.Succs[decided], b, 0)
+					return
+				}
 				nc := len(cur.Conds)
 				for k := 0; k < 2; k++ {
-					cur.Conds = append(cur.Conds[:nc], Guard{Cond: cond, Pos: k == 0, If: x})
+					cur.Conds = append(cur.Conds[:nc], Guard{Cond: cond, Pos: k == 0, If: x, At: len(cur.Instrs)})
 					walkFrom(c, b.Succs[k], b, 0)
 				}
 				return
@@ -1609,4 +1684,36 @@ func sameReceiverHelperOf(fn *ssa.Function) func(*ssa.Function) bool {
 		}
 		return types.Identical(callee.Signature.Recv().Type(), rv.Type())
 	}
+}
+
+// immutableCond: the condition compares only constants, parameters and results of calls (values that cannot change
+// between two evaluations), not loads from memory.
+func immutableCond(v ssa.Value) bool {
+	var ok func(v ssa.Value, d int) bool
+	ok = func(v ssa.Value, d int) bool {
+		if d > 4 {
+			return false
+		}
+		switch x := v.(type) {
+		case *ssa.Const, *ssa.Parameter, *ssa.Call:
+			return true
+		case *ssa.Extract:
+			return ok(x.Tuple, d+1)
+		case *ssa.BinOp:
+			return ok(x.X, d+1) && ok(x.Y, d+1)
+		case *ssa.UnOp:
+			if x.Op == token.NOT {
+				return ok(x.X, d+1)
+			}
+			return false
+		case *ssa.ChangeInterface:
+			return ok(x.X, d+1)
+		case *ssa.MakeInterface:
+			return ok(x.X, d+1)
+		case *ssa.TypeAssert:
+			return ok(x.X, d+1)
+		}
+		return false
+	}
+	return ok(v, 0)
 }
